@@ -124,12 +124,19 @@ def h_dispatch_rect(ctx, n, r, perm, dr_min, dr_max):
     (n - r): the bounds are clamped, never rejected (this is how TT-cross calls it)."""
     A = _plu(ctx, n, r, perm)
     A0 = A.copy()
-    I, B = teneva._maxvol(A, 1.1, dr_min, dr_max, 1.05, 1)
+    tau = ctx.real('tau')
+    tau0 = ctx.real('tau0')
+    ctx.assume(ctx.ge(tau, 1))
+    ctx.assume(ctx.ge(tau0, 1))
+    I, B = teneva._maxvol(A, tau, dr_min, dr_max, tau0, 1)
     I = [int(i) for i in I]
     q = len(I)
     hi = min(n, r + dr_max)
     lo = min(r + dr_min, hi)
     ctx.claim('rows_count_clamped', lo <= q <= hi)
+    if q < hi:
+        # stopped before the upper limit: the accuracy of the rectangular stage is tau (not tau0)
+        ctx.claim('row_norms_le_tau', ctx.all_([ctx.le(sumsq(B[i, :]), tau * tau) for i in range(n)]))
     ctx.claim('rows_valid', len(set(I)) == q and all(0 <= i < n for i in I))
     ctx.claim('A_eq_B_AI', ctx.all_eq(B @ A0[I, :], A0))
     ctx.claim('B_I_identity', ctx.all_eq(B[I, :], eye(ctx, q)))
@@ -174,7 +181,7 @@ def instances(tier):
         for p in perms(n, r, False)[:2 if tier == 'quick' else 3]:
             out.append({'func': 'h_maxvol_rect', 'params': {'n': n, 'r': r, 'perm': list(p),
                                                             'dr_min': a, 'dr_max': b, 'k0': k0}})
-    for (n, r, a, b) in [(3, 2, 2, 2), (3, 1, 3, 5), (4, 2, 3, 3), (3, 2, 1, 1)]:
+    for (n, r, a, b) in [(3, 2, 2, 2), (3, 1, 3, 5), (4, 2, 3, 3), (3, 2, 1, 1), (3, 1, 0, 2), (4, 2, 0, 1)]:
         out.append({'func': 'h_dispatch_rect', 'params': {'n': n, 'r': r, 'perm': list(range(n)), 'dr_min': a, 'dr_max': b}})
     for n, r in [(2, 2), (2, 3), (1, 1)]:
         out.append({'func': 'h_reject', 'params': {'n': n, 'r': r}})
